@@ -60,9 +60,10 @@ def main():
     ap.add_argument("--tests", default="")
     ap.add_argument("--full", action="store_true")
     ap.add_argument("--src", default=None)
+    ap.add_argument("--round", default="1")
     args = ap.parse_args()
     src = args.src or f"/tmp/mut/{args.pid}-out"
-    name = f"{args.pid}-m{args.k}"
+    name = f"{args.pid}-m{args.k}" if args.round == "1" else f"{args.pid}-r{args.round}m{args.k}"
     patch = os.path.join(src, f"m{args.k}.diff")
     demo = os.path.join(src, f"demo{args.k}.py")
     info = json.load(open(os.path.join(src, f"m{args.k}.json"), encoding="utf-8"))
